@@ -23,6 +23,8 @@ def harnesses():
         'H3-two-forced': dict(ctype='json', old=True, callers=[('A', 'force', None), ('B', 'force', None), ('G', 'get', None)]),
         'H4-happens-before': dict(ctype='json', old=False, callers=[('A', 'goc', None), ('B', 'force', None), ('C', 'goc', 'A')]),
         'H5-numpy': dict(ctype='numpy', old=True, callers=[('A', 'force', None), ('B', 'goc', None), ('G', 'get', None)]),
+        'H7-numpy-reader': dict(ctype='numpy', old=True, callers=[('A', 'force', None), ('G', 'get', None)]),
+        'H8-frame-reader': dict(ctype='frame', old=True, callers=[('A', 'force', None), ('B', 'goc', None)]),
         'H6-two-writers-reader': dict(ctype='json', old=False, callers=[('A', 'goc', None), ('B', 'force', None)]),
     }
 
@@ -31,6 +33,9 @@ def _value(ctype, who):
     if ctype == 'json':
         return {'by': who, 'pad': 'x' * 8}
     import numpy as np
+    if ctype == 'frame':
+        import pandas as pd
+        return pd.DataFrame({'by': [who, who], 'n': [1, 2]})
 
     return np.array([ord(c) for c in who] * 3, dtype=np.int64)
 
@@ -46,6 +51,11 @@ def _who(ctype, v):
             return v['by']
         return None
     import numpy as np
+    if ctype == 'frame':
+        import pandas as pd
+        if isinstance(v, pd.DataFrame) and list(v.columns) == ['by', 'n'] and v['n'].tolist() == [1, 2] and v['by'].nunique() == 1:
+            return v['by'].iloc[0]
+        return None
 
     if isinstance(v, np.ndarray) and v.dtype == np.int64 and v.shape[0] % 3 == 0 and v.shape[0] > 0:
         n = v.shape[0] // 3
@@ -56,9 +66,9 @@ def _who(ctype, v):
 
 
 def make_cache(ctype, d):
-    from taskchain.cache import JsonCache, NumpyArrayCache
+    from taskchain.cache import DataFrameCache, JsonCache, NumpyArrayCache
 
-    return JsonCache(d) if ctype == 'json' else NumpyArrayCache(d)
+    return {'json': JsonCache, 'numpy': NumpyArrayCache, 'frame': DataFrameCache}[ctype](d)
 
 
 def execute(hname, choices):
@@ -242,8 +252,9 @@ def _explore(args):
 
 
 PLAN = {
-    'quick': [('H1-empty', 2, False), ('H2-present-forced', 2, True), ('H4-happens-before', 2, True), ('H6-two-writers-reader', 3, False), ('H3-two-forced', 2, True)],
-    'thorough': [('H1-empty', 3, False), ('H2-present-forced', 3, True), ('H3-two-forced', 3, True), ('H4-happens-before', 4, True), ('H5-numpy', 2, True), ('H6-two-writers-reader', 8, False)],
+    'quick': [('H1-empty', 2, False), ('H2-present-forced', 2, True), ('H4-happens-before', 2, True), ('H6-two-writers-reader', 3, False), ('H3-two-forced', 2, True),
+              ('H7-numpy-reader', 2, True), ('H8-frame-reader', 2, True)],
+    'thorough': [('H1-empty', 3, False), ('H2-present-forced', 3, True), ('H3-two-forced', 3, True), ('H4-happens-before', 4, True), ('H5-numpy', 2, True), ('H6-two-writers-reader', 8, False), ('H7-numpy-reader', 4, True), ('H8-frame-reader', 4, True)],
 }
 
 
